@@ -448,3 +448,77 @@ RULES = [
     ("C20.R5", "T5-zero/T2", "Durations cross the boundary whole: no truncating accessor; zero sentinels compare the whole value", r5),
     ("C20.R6", "T-sibling/T2", "dead-band request arms agree on their adaptor and namesake constructor; per-item slots are emptied before get_or_insert", r6),
 ]
+
+
+def r7(ctx):
+    """Completeness and namesakes of the hand-written adaptor layer, stated over whole types:
+    (a) a `From<ffi::S>` conversion of a foreign STRUCT reads every field of S (through its accessor or directly) - a field that is
+        never read is a value dropped at the boundary (`update_static` replaced by a constant); `index` is exempt where the native
+        value has no index (it travels as a separate argument);
+    (b) a `From<ffi::E>` conversion of a foreign ENUM is by name: it has an arm for every variant of E (R1 checks each arm builds its
+        namesake) - a numeric short-cut (`E as u8`) silently relies on two unrelated numberings agreeing;
+    (c) an implementation of a native trait for a foreign interface forwards each method to the interface's callback OF THE SAME NAME
+        when it calls a callback of that interface that is itself some trait method's namesake (warm_restart -> cold_restart)."""
+    ffi = ctx.ffi
+    na = nb = nc = 0
+    structs = {pth: a for pth, a in ffi.adts.items() if a["kind"] == "struct" and pth.startswith("dnp3_ffi::ffi::")}
+    impls = {}
+    for bd in ffi.bodies.values():
+        if not hand_written(bd):
+            continue
+        m = re.search(r"From<(dnp3_ffi::ffi::\w+)> for ([\w:<>, ']+)>::from$", bd.path)
+        if m and m.group(1) in structs:
+            src = m.group(1)
+            fields = [f[0] for f in structs[src]["variants"][0]["fields"]]
+            sym = ctx.sym(bd)
+            got = set()
+            for b in bd.calls():
+                c = b.term.callee or ""
+                if c.startswith(src + "::"):
+                    got.add(c.split("::")[-1])
+            exprs = [sym.rvalue_expr(st.rv) for _, _, st in bd.assigns()] + [sym.call_expr(b.term) for b in bd.calls()]
+            for ch in ffi.children(bd):
+                for b in ch.calls():
+                    c = b.term.callee or ""
+                    if c.startswith(src + "::"):
+                        got.add(c.split("::")[-1])
+            for e in exprs:
+                for x in expr_walk(e):
+                    if x[0] == "field" and x[2] in fields:
+                        got.add(x[2])
+            missing = [f for f in fields if f not in got and f != "index"]
+            na += 1
+            ctx.check(not missing, "struct-fields@%s" % short(bd.path), "every field of %s is read (%d)" % (src.split("::")[-1], len(fields)), bd.where(line=bd.line), bad_detail="the conversion from ffi::%s never reads its field(s) %s: whatever the caller put there is dropped at the boundary" % (src.split("::")[-1], missing))
+        a = ffi.adts.get(m.group(1)) if m else None
+        if m and a is not None and a["kind"] == "enum":
+            src = m.group(1)
+            vs = [v["name"] for v in a["variants"]]
+            seen = set()
+            for g in ctx.gi(bd).all_guards():
+                if g.enum == src:
+                    if g.kind == "is":
+                        seen.add(g.name)
+                    elif g.kind == "oneof":
+                        seen.update(g.name)
+            nb += 1
+            missing = [v for v in vs if v not in seen]
+            ctx.check(not missing, "enum-by-name@%s" % short(bd.path), "the conversion has an arm for each of the %d variants of %s" % (len(vs), src.split("::")[-1]), bd.where(line=bd.line), bad_detail="the conversion from ffi::%s has no arm for %s: it is not a translation by name" % (src.split("::")[-1], missing[:6]))
+        m2 = re.search(r"<impl ([\w:<>, ']+) for (dnp3_ffi::ffi::\w+)>::(\w+)$", bd.path)
+        if m2:
+            impls.setdefault((m2.group(2), m2.group(1)), {})[m2.group(3)] = bd
+    for (ty, tr), ms in impls.items():
+        names = set(ms)
+        for meth, bd in ms.items():
+            called = []
+            for x in [bd] + list(ffi.children(bd)):
+                called += [(b.term.callee or "").split("::")[-1] for b in x.calls() if (b.term.callee or "").startswith(ty + "::")]
+            if not called:
+                continue
+            nc += 1
+            wrong = sorted({c for c in called if c != meth and c in names})
+            ctx.check(not wrong, "forwarder@%s::%s" % (ty.split("::")[-1], meth), "%s forwards to the foreign %s" % (meth, sorted(set(called))), bd.where(line=bd.line), bad_detail="%s::%s forwards to the foreign callback %s, which is the namesake of another method of the same trait" % (ty.split("::")[-1], meth, wrong))
+    if na < 20 or nb < 12 or nc < 40:
+        raise AnchorError("adaptor census: %d struct conversions, %d enum conversions, %d forwarders" % (na, nb, nc))
+
+
+RULES.append(("C20.R7", "T4-total/T4-namesake", "foreign structs are converted field-complete, foreign enums by name, trait adaptors forward to the namesake callback", r7))
